@@ -219,7 +219,11 @@ func stressUCI(seed int64, tier string) {
 				}
 				owed = base + 1
 			case 5: // supersede a running search by a new position and go: the old one must not answer
-				send("go infinite")
+				if r.Intn(2) == 0 {
+					send("go infinite")
+				} else {
+					send("go depth 30") // ends only by being halted; its forwarder then posts a completion
+				}
 				nGo++
 				nap(15)
 				time.Sleep(5 * time.Millisecond)
@@ -260,10 +264,20 @@ func stressUCI(seed int64, tier string) {
 				if !waitBest(base+1, 60*time.Second) {
 					report("C04", "no-answer", strings.Join(script, "; "), label+": stopped movetime search was not answered")
 				}
+				if r.Intn(2) == 0 {
+					// a new game in between: the pending timer belongs to the previous game
+					send("ucinewgame")
+					send(cur.line)
+				}
 				send("go infinite")
 				nGo++
 				script = append(script, "[200ms]")
 				time.Sleep(200 * time.Millisecond)
+				if name == "morlock" || !book {
+					if early := len(bests()); early > base+1 {
+						report("C16", "answered-without-stop", strings.Join(script, "; "), label+": go infinite was answered before stop (by the expired movetime of an earlier search)")
+					}
+				}
 				send("stop")
 				if !waitBest(base+2, 60*time.Second) {
 					report("C04", "stale-timer", strings.Join(script, "; "), label+": go infinite + stop after an expired movetime of an earlier search was not answered")
